@@ -720,9 +720,22 @@ impl<RW: QueueRW<T>, T> FutInnerRecv<RW, T> {
 
     #[inline(always)]
     pub fn recv(&self) -> Result<T, RecvError> {
-        let rval = self.reader.recv();
-        self.prod_wait.notify_all();
-        rval
+        // Every attempt may unpin a slot or free space, also a failed one, and this
+        // call may then wait for a long time: tell parked sinks before waiting, not
+        // only when a value is finally returned.
+        loop {
+            match self.try_recv() {
+                Ok(v) => return Ok(v),
+                Err(TryRecvError::Disconnected) => return Err(RecvError),
+                Err(TryRecvError::Empty) => {
+                    let queue = &self.reader.queue;
+                    let count = self.reader.reader.load_count(Relaxed);
+                    queue
+                        .waiter
+                        .wait(count, queue.flag_for(count), &queue.writers);
+                }
+            }
+        }
     }
 
     /// Creates a new stream and returns a FutInnerRecv on that stream
